@@ -266,8 +266,11 @@ class Conv:
         return p2a, ps
 
 
-def rule_bij_desc_has(ctx, cv):
+def rule_bij_desc_has(ctx, cv, decided=()):
     kinds = sorted(set(cv.fwd) & set(cv.rev))
+    # pairs the abstract execution (c10_rt) decided clean are not looked at structurally: the structural model is kept as
+    # the explanation of a failure (it names the statement), not as a second judge of how the converter is written
+    kinds = [k for k in kinds if k not in decided]
     # a reverse converter nobody calls is dead code (its forward twin is a chain helper): not part of the mapping
     called = {c.func.attr[len("proto_to_"):] for fn in cv.cls.methods.values() for c in ast.walk(fn)
               if isinstance(c, ast.Call) and is_self_attr(c.func) and c.func.attr.startswith("proto_to_")}
@@ -369,6 +372,7 @@ def rule_bij_desc_has(ctx, cv):
 
 
 def rule_top(ctx, cv):
+    """structural reading of the top-level pair: only when the abstract execution could not decide it clean"""
     A, P, entries, chains = cv.forward("message")
     ctor, rargs = cv.reverse("message")
     w = where(CONV, "AttributesConverter.proto_to_message", cv.rev["message"].lineno)
@@ -532,10 +536,26 @@ def rule_acc(ctx):
     return n
 
 
+def rule_converter(ctx, cv=None):
+    """the converter judged by abstract execution (c10_rt); the structural reading (rule_bij_desc_has / rule_top) only for
+    the pairs the execution did not decide clean, where it names the statement at fault"""
+    from . import c10_rt
+    cv = cv if cv is not None else Conv(ctx)
+    clean = ctx.guarded("C10.bij", c10_rt.rule_roundtrip, ctx, cv) or set()
+    ctx.units["C10.rt_clean"] = sorted(clean)
+    rt_kinds = set(ctx.units.get("C10.rt_pairs", []))
+    all_clean = bool(rt_kinds) and rt_kinds <= clean and "<bytes>" in clean
+    if not all_clean:
+        # helper converters (two-argument forward side) are reached through the pairs that chain to them
+        ctx.guarded("C10.bij_desc_has", rule_bij_desc_has, ctx, cv, clean)
+        if "message" not in clean or "<bytes>" not in clean:
+            ctx.guarded("C10.top", rule_top, ctx, cv)
+
+
 def run(ctx):
     ctx.rule("C10.bij", "attribute -> proto -> attribute is the identity for every converter pair", floor=80)
-    ctx.rule("C10.desc", "every proto field named exists in the message descriptor", floor=150)
-    ctx.rule("C10.has", "HasField / None guards name the field they guard", floor=60)
+    ctx.rule("C10.desc", "every proto field named exists in the message descriptor", floor=80)
+    ctx.rule("C10.has", "optional attributes: None and falsy values survive (HasField / None guards name the field they guard)", floor=50)
     ctx.rule("C10.top", "top-level kinds 1:1, constructor order", floor=5)
     ctx.rule("C10.acc", "media entity accessors", floor=80)
     ctx.rule("C10.pad", "payload padding removed exactly (C03.map adopted)", floor=8)
@@ -544,8 +564,7 @@ def run(ctx):
     ctx.assume("google.protobuf's own encoding is trusted; descriptors are read from the generated modules' Descriptor(...) calls")
     cv = Conv(ctx)
     ctx.units["C10.descriptors"] = len(cv.descs)
-    ctx.guarded("C10.bij_desc_has", rule_bij_desc_has, ctx, cv)
-    ctx.guarded("C10.top", rule_top, ctx, cv)
+    rule_converter(ctx, cv)
     ctx.guarded("C10.ser", rule_ser, ctx)
     ctx.guarded("C10.ser", rule_forward, ctx)
     ctx.guarded("C10.acc", rule_acc, ctx)
